@@ -383,7 +383,7 @@ fn flaky_phase(thorough: bool) -> Phase {
 /// every number of pieces for piece types of every size, three structured histories each (thresholds in segments and in
 /// bytes, crossed for each type): forward sweep through every cell and end, backward sweep, far / near alternation and jumps
 fn sized_phase(thorough: bool, c16: bool) -> Phase {
-    fn sized<T: Nums + Evaluate>(n: usize, pattern: usize, nan: bool, name: &str, cx: &mut Cx) -> Verdict {
+    fn sized<T: Nums + Evaluate + Copy>(n: usize, pattern: usize, nan: bool, name: &str, cx: &mut Cx) -> Verdict {
         let ends: Vec<f64> = (0..n).map(|i| 0.5 + i as f64 * 0.25).collect();
         let pw: Piecewise<T> = Piecewise {
             segments: ends.iter().enumerate().map(|(i, &e)| Segment { end: e, poly: T::from_nums(&(0..T::N).map(|l| 1.0 + (i % 251) as f64 + 0.125 * l as f64).collect::<Vec<_>>()) }).collect(),
@@ -435,12 +435,24 @@ fn sized_phase(thorough: bool, c16: bool) -> Phase {
         if cx.sampling() {
             cx.sample(json!({"piece_type": name, "pieces": n, "pattern": pattern, "queries": xs.len()}));
         }
+        // the segments also in a slice placed at an address 8 (mod 16) (a Vec's buffer never is): same answers
+        let placed = if std::mem::size_of::<Segment<T>>() % 8 == 0 && n <= 700 { Some(Placed::new(&pw.segments)) } else { None };
         let r = guard(|| {
             let mut ev = PiecewiseEvaluator::new(&pw.segments);
+            let mut ev2 = placed.as_ref().map(|p| PiecewiseEvaluator::new(p.slice()));
+            // (expected: the reference piece - first end > x, else the last - found by bisection in the harness; direct
+            // evaluation itself scans linearly, which would make the long sweeps quadratic; C02 decides direct evaluation)
+            let direct = |x: f64| pw.segments[ends.partition_point(|&e| e <= x).min(n - 1)].poly.evaluate(x);
             for (t, &x) in xs.iter().enumerate() {
                 let y = ev.evaluate(x);
-                if !x.is_nan() && y.to_bits() != pw.evaluate(x).to_bits() {
-                    return Some((t, x, y, pw.evaluate(x)));
+                if !x.is_nan() && y.to_bits() != direct(x).to_bits() {
+                    return Some((t, x, y, direct(x)));
+                }
+                if let Some(e2) = ev2.as_mut() {
+                    let y2 = e2.evaluate(x);
+                    if !x.is_nan() && y2.to_bits() != y.to_bits() {
+                        return Some((t, x, y2, y));
+                    }
                 }
             }
             None
@@ -460,8 +472,8 @@ fn sized_phase(thorough: bool, c16: bool) -> Phase {
         split: 1,
         body: Box::new(move |unit, cx| {
             let top = if thorough { 1500 } else { 600 };
-            let k = cx.choose(top - 1 + 3);
-            let n = if k < top - 1 { 2 + k } else { [1025usize, 4097, 16385][k - (top - 1)] };
+            let k = cx.choose(top - 1 + 5);
+            let n = if k < top - 1 { 2 + k } else { [1025usize, 4097, 16385, 65537, 70001][k - (top - 1)] };
             let pattern = cx.choose(3);
             match unit {
                 0 => sized::<Poly0>(n, pattern, c16, "Poly0", cx),
@@ -473,8 +485,8 @@ fn sized_phase(thorough: bool, c16: bool) -> Phase {
             }
         }),
         classes: classes(c16).into_iter().map(|(n, _)| (n, false)).collect(),
-        bounds: json!({"piece_types": "Poly0, Poly2, Poly3, Poly5, Poly8, IntOfLogPoly4 (Segment sizes 16..80 bytes)", "pieces": if thorough {"every n from 2 to 1500, and 1025, 4097, 16385"} else {"every n from 2 to 600, and 1025, 4097, 16385"},
-            "histories": "forward sweep through every cell and every end exactly; backward sweep through every third cell; last cell / first eight cells alternately, then jumps of 33, 65, 1 and 200 cells forth and back with the target end hit exactly (C16: a NaN query after every seventh query)"}),
+        bounds: json!({"piece_types": "Poly0, Poly2, Poly3, Poly5, Poly8, IntOfLogPoly4 (Segment sizes 16..80 bytes)", "pieces": if thorough {"every n from 2 to 1500, and 1025, 4097, 16385, 65537, 70001"} else {"every n from 2 to 600, and 1025, 4097, 16385, 65537, 70001"},
+            "histories": "forward sweep through every cell and every end exactly; backward sweep through every third cell; last cell / first eight cells alternately, then jumps of 33, 65, 1 and 200 cells forth and back with the target end hit exactly (C16: a NaN query after every seventh query); up to 700 pieces the same history also on an evaluator over the segments copied to an address 8 (mod 16)"}),
     }
 }
 
